@@ -12,11 +12,14 @@ import (
 
 // LV describes a memory location: heap key + object ref (+ element index).
 type LV struct {
-	Key  string
-	Ref  Term
-	Idx  *Term // element index for Elem.* keys
-	Sort Sort
+	Key   string
+	Ref   Term
+	Idx   *Term // element index for Elem.* keys
+	Sort  Sort
+	IsRef bool // the location is statically typed as a reference (pointer, map, func, chan)
 }
+
+func isRefTy(t types.Type) bool { return t != nil && (isRefLike(t) || isStruct(t)) }
 
 // Val is the symbolic value of an SSA value.
 type Val struct {
@@ -96,6 +99,9 @@ type FnExec struct {
 	wrap64   bool
 	results  []returnInfo
 	unsupported []string
+	refKeys  map[string]bool // field keys whose Int sort denotes a reference
+	marks    map[string]*State
+	markCnt  map[string]int
 }
 
 type returnInfo struct {
@@ -118,6 +124,7 @@ type Frame struct {
 	loops   *loopInfo
 	recovered bool
 	fnspecOuter bool
+	deferPCs []Term
 }
 
 func (fx *FnExec) note(s string) { fx.notes[s] = true }
@@ -145,9 +152,15 @@ func (fx *FnExec) heapSet(st *State, key string, t Term) {
 }
 
 func (fx *FnExec) newEpoch(st *State) {
+	keep := map[string]Term{}
+	for k := range fx.keySort {
+		if strings.HasPrefix(k, "Local.") {
+			keep[k] = fx.heapGet(st, k, fx.keySort[k])
+		}
+	}
 	fx.nepoch++
 	st.epoch = fx.nepoch
-	st.heap = map[string]Term{}
+	st.heap = keep
 	st.wm = func() Term {
 		w := fx.ctx.Fresh("wm", SInt)
 		fx.ctx.Assert(Ge(w, st.wm))
@@ -217,13 +230,21 @@ func (fx *FnExec) wellFormed(st *State, v Term, t types.Type) {
 			Implies(Eq(SlBase(v), Int(0)), Eq(SlCap(v), Int(0)))))
 	case *types.Interface:
 		fx.assume(st, And(Ge(IfVal(v), Int(0)), Le(IfVal(v), st.wm), Ge(IfTag(v), Int(0)),
-			Implies(Eq(IfTag(v), Int(0)), Eq(IfVal(v), Int(0)))))
+			Eq(Eq(IfTag(v), Int(0)), Eq(IfVal(v), Int(0)))))
 	case *types.Basic:
 		if u.Info()&types.IsUnsigned != 0 {
 			fx.assume(st, Ge(v, Int(0)))
 		}
 		if u.Kind() == types.Uint8 {
 			fx.assume(st, Le(v, Int(255)))
+		}
+		if fx.wrap64 {
+			switch u.Kind() {
+			case types.Int64, types.Int:
+				fx.assume(st, And(Ge(v, Term{"(- 9223372036854775808)", SInt}), Le(v, Term{"9223372036854775807", SInt})))
+			case types.Int32:
+				fx.assume(st, And(Ge(v, Term{"(- 2147483648)", SInt}), Le(v, Term{"2147483647", SInt})))
+			}
 		}
 	}
 }
@@ -234,7 +255,41 @@ func fieldKey(st types.Type, field string) string {
 	return "F." + typeKey(st) + "." + field
 }
 
+// entryFact: the entry heap is closed — a cell of the entry heap holds a reference allocated before entry.
+func (fx *FnExec) entryFact(lv *LV) {
+	if fx.entry == nil {
+		return
+	}
+	var v Term
+	if lv.Idx != nil {
+		arr := fx.heapGet(fx.entry, lv.Key, ArraySort(SInt, ArraySort(SInt, lv.Sort)))
+		v = Select(Select(arr, lv.Ref, ArraySort(SInt, lv.Sort)), *lv.Idx, lv.Sort)
+	} else {
+		arr := fx.heapGet(fx.entry, lv.Key, ArraySort(SInt, lv.Sort))
+		v = Select(arr, lv.Ref, lv.Sort)
+	}
+	var f Term
+	switch lv.Sort {
+	case SSlice:
+		f = Le(SlBase(v), fx.entry.wm)
+	case SIface:
+		f = Le(IfVal(v), fx.entry.wm)
+	case SInt:
+		if !lv.IsRef {
+			return
+		}
+		f = Le(v, fx.entry.wm)
+	default:
+		return
+	}
+	if strings.Contains(f.S, "|q!") {
+		return // mentions a bound variable of an enclosing quantifier
+	}
+	fx.ctx.RawOnce("entryfact!"+f.S, "(assert "+f.S+")")
+}
+
 func (fx *FnExec) readLV(st *State, lv *LV) Term {
+	fx.entryFact(lv)
 	if lv.Idx != nil {
 		arr := fx.heapGet(st, lv.Key, ArraySort(SInt, ArraySort(SInt, lv.Sort)))
 		return Select(Select(arr, lv.Ref, ArraySort(SInt, lv.Sort)), *lv.Idx, lv.Sort)
@@ -257,12 +312,13 @@ func (fx *FnExec) writeLV(st *State, lv *LV, v Term) {
 func elemKey(s Sort) string { return "Elem." + string(s) }
 func cellKey(s Sort) string { return "Cell." + string(s) }
 
-// subRef is the interior pointer to a struct/array-typed field.
+// subRef is the interior pointer to a struct/array-typed field: an uninterpreted function of the owner,
+// negative (so it never collides with an allocated object or nil). Injectivity is not asserted (sound: more aliasing).
 func (fx *FnExec) subRef(p Term, key string) Term {
 	f := fx.ctx.DeclFun("sub!"+key, []Sort{SInt}, SInt)
-	inv := fx.ctx.DeclFun("subinv!"+key, []Sort{SInt}, SInt)
-	fx.ctx.RawOnce("subax!"+key, fmt.Sprintf("(assert (forall ((p Int)) (! (and (< (%s p) 0) (= (%s (%s p)) p)) :pattern ((%s p)))))", f, inv, f, f))
-	return App(SInt, f, p)
+	t := App(SInt, f, p)
+	fx.ctx.RawOnce("subax!"+key+"!"+p.S, fmt.Sprintf("(assert (< %s 0))", t.S))
+	return t
 }
 
 // structFields lists the fields of a struct type.
@@ -322,7 +378,7 @@ func (fx *FnExec) pointee(p Val, elem types.Type) *LV {
 		return p.LV
 	}
 	s := sortOf(elem)
-	return &LV{Key: cellKey(s), Ref: p.T, Sort: s}
+	return &LV{Key: cellKey(s), Ref: p.T, Sort: s, IsRef: isRefTy(elem)}
 }
 
 // ---- loops
@@ -699,6 +755,14 @@ func (fr *Frame) enterLoop(h *ssa.BasicBlock, ins []*State, preds []*ssa.BasicBl
 	keys, any := fr.loopMods(h.Index)
 	if any {
 		fx.newEpoch(st)
+		for _, k := range sortedKeys(keys) {
+			if strings.HasPrefix(k, "Local.") {
+				if _, ok := fx.keySort[k]; !ok {
+					fx.keySort[k] = keys[k]
+				}
+				st.heap[k] = fx.ctx.Fresh("Hloop."+k, fx.keySort[k])
+			}
+		}
 	} else {
 		for _, k := range sortedKeys(keys) {
 			if _, ok := fx.keySort[k]; !ok {
@@ -721,6 +785,16 @@ func (fr *Frame) enterLoop(h *ssa.BasicBlock, ins []*State, preds []*ssa.BasicBl
 		}
 		entryPhi[phi] = fr.vals[phi]
 		fr.vals[phi] = fx.freshVal(st, "loop."+phi.Comment, phi.Type())
+	}
+	// range-over-slice index: starts at -1 and only ever increases by one (by construction of the SSA)
+	for _, in := range h.Instrs {
+		phi, ok := in.(*ssa.Phi)
+		if !ok {
+			break
+		}
+		if phi.Comment == "rangeindex" {
+			fx.extendPC(st, Ge(fx.materialize(fr.vals[phi], phi.Type()), Int(-1)))
+		}
 	}
 	// 3. assume invariant
 	if spec != nil && len(spec.Step) > 0 {
